@@ -237,6 +237,14 @@ fn check_adopt_constraint(op: &Op, pre: &Model, post: &Model, ret: Option<Lid>) 
             for l in &d.changed {
                 let a = &pre.n(*l);
                 let b = &post.n(*l);
+                // the default declaration of an element that is in no namespace may be turned
+                // into xmlns="" (the only way to make that element serialisable)
+                if let (Kind::Ns(pa, _), Kind::Ns(pb, ub)) = (&a.kind, &b.kind) {
+                    let parent_no_ns = a.parent.map(|p| matches!(&pre.n(p).kind, Kind::Elem(nm) if nm.uri.is_empty())).unwrap_or(false);
+                    if pa.is_empty() && pb.is_empty() && ub.is_empty() && parent_no_ns && a.parent == b.parent {
+                        continue;
+                    }
+                }
                 if pre.root_of(*l) != root || a.kind != b.kind || a.attrs != b.attrs || a.kids != b.kids || a.parent != b.parent {
                     return Err(foreign(format!("create_missing_prefixes altered {:?}", l)));
                 }
